@@ -17,7 +17,7 @@ func zz17Record(kind int, tag string) zz17Rec {
 	r := zz17Rec{kind: kind}
 	switch kind {
 	case 0: // PEER_APPLY ‖ hex-decoded peer public key (variable length)
-		pk := zz17VarBytes(tag+".pubkey", []int{0, 1, 2, 33})
+		pk := zz17VarBytes(tag+".pubkey", zz17Lens(32, 33))
 		keys := zz17Keys(func(ns *native.NativeService) {
 			err := putPeerApply(ns, &RegisterPeerParam{PeerPubkey: zz17HexEncode(pk)})
 			zzsym.Assert(err == nil, "putPeerApply accepts a hex public key")
